@@ -186,7 +186,6 @@ func exprText(e ast.Expr) string {
 	return b.String()
 }
 
-
 func identOf(e ast.Expr) *ast.Ident {
 	id, _ := ast.Unparen(e).(*ast.Ident)
 	if id == nil {
